@@ -26,7 +26,7 @@ import yaml
 import common
 import proofs
 
-FILES = ["Model_scsv.v", "Proofs_scsv.v", "Entry_scsv.v"]
+FILES = ["Model_scsv.v", "Proofs_scsv.v", "Model_scsv_frame.v", "Proofs_scsv_frame.v", "Entry_scsv.v"]
 PROP = "Properties/C16.v"
 WS = " \t\n\r\x0b\x0c\x1c\x1d\x1e\x1f"
 TYPEMAP = {"string": str, "integer": int, "float": float, "boolean": bool, "complex": complex}
@@ -72,6 +72,21 @@ KNOWN = {
         "a non-string cell whose text equals the missing marker reads back as the fill (missing '5', integer 5, fill 0 -> 0)",
         _S([{"name": "a", "type": "integer", "fill": "0"}], m="5"), [[5, 6]],
         lambda r: r[0] == "OK" and r[2] == [(0, 6)]),
+    "C16:save_scsv:marker-text-in-numeric-column": (
+        "a cell of the wrong type in a numeric column whose text is the missing marker ('' with marker '', True with marker 'True') "
+        "passes the per-cell parse check (it parses as 'missing'); save_scsv then raises TypeError from np.isnan or writes the file "
+        "instead of raising SCSVError",
+        _S([{"name": "a", "type": "float", "fill": "NaN"}], m=""), [[2.5, "", 2.5]],
+        lambda r: r[0] == "SAVE-ERR" and r[1] == "EType"),
+    "C16:read_scsv:dash-delimited-empty-row-is-fence": (
+        "with the delimiter '-' a row of four empty cells is written as the line '---', which read_scsv takes for the YAML fence",
+        _S([{"name": n, "type": "string", "fill": "x"} for n in "abcd"], d="-", m="N"), [["p", "", "q"]] * 4,
+        lambda r: r[0] == "READ-ERR"),
+    "C16:write_scsv_header:yaml-special-character": (
+        "a CSV-legal delimiter that YAML does not accept verbatim (C0 control characters other than tab, DEL, NEL) is written "
+        "unescaped into the header; the saved file cannot be read back",
+        _S([{"name": "a", "type": "integer", "fill": "0"}], d="\x1f"), [[1, 2]],
+        lambda r: r[0] == "READ-ERR" and r[1] == "EYaml"),
 }
 
 EXC_ENUM = {"SCSVError": "SCSV", "ValueError": "EValue", "TypeError": "EType", "KeyError": "EKey",
@@ -213,11 +228,13 @@ class Tables:
 
     def __init__(self):
         self.strs, self.ints, self.floats, self.cplx, self.namelists, self.delims = set(), set(), set(), set(), [], set()
+        self.values = set()        # strings that occur as a name / fill / cell (positions the code may strip)
 
     def add_value(self, v):
         if isinstance(v, bool) or v is None:
             return
         if isinstance(v, str):
+            self.values.add(v)
             self.strs.add(v)
             self.strs.add(v.strip(WS))
         elif isinstance(v, int):
@@ -401,12 +418,15 @@ class Impl:
         except Exception as e:  # noqa: BLE001
             return ("READ-ERR", exc_enum(e), str(e)[:120])
 
-    def roundtrip(self, s, data):
+    def roundtrip(self, s, data, comments=None):
         """-> (result, file text or None)"""
         self.n += 1
         path = os.path.join(self.tmp, f"c{self.n}.scsv")
         try:
-            self.io.save_scsv(path, s, data)
+            if comments is None:
+                self.io.save_scsv(path, s, data)
+            else:
+                self.io.save_scsv(path, s, data, comments=comments)
         except Exception as e:  # noqa: BLE001
             return ("SAVE-ERR", exc_enum(e), str(e)[:120]), path
         return self.read(path), path
@@ -425,7 +445,7 @@ def csv_rows(csv_lines, d):
 # the property, read directly on the public API (used for classification and for the search)
 # ----------------------------------------------------------------------------------------
 def plain(s):
-    return s.strip(WS) == s and "\n" not in s and "\r" not in s
+    return s.strip(WS) == s and s.strip() == s and "\n" not in s and "\r" not in s
 
 
 def csv_legal(d):
@@ -523,10 +543,61 @@ DOCUMENTED_FAULTS = ("missing_key_delimiter", "missing_key_missing", "missing_ke
                      "cell_unparsable")
 
 
+def yaml_special(x):
+    """characters a YAML stream does not accept verbatim (not c-printable), or folds (NEL)"""
+    def printable(ch):
+        o = ord(ch)
+        return ch in "\t\n\r" or 0x20 <= o <= 0x7e or 0xa0 <= o <= 0xd7ff or 0xe000 <= o <= 0xfffd or o >= 0x10000
+    return any(not printable(ch) for ch in x)
+
+
+def dash_fence_rows(d, rows):
+    """rows (tuples of cell texts) whose written line is exactly '---' although the row is not ['---']"""
+    return any(len(r) > 1 and model_csv_text([list(r)], d) == "---" + os.linesep for r in rows) if csv_legal(d) else False
+
+
+def line_class(line):
+    """how read_scsv's line loop could see a line of the csv body"""
+    if line in ("\n", "---\n"):
+        return "exact blank/fence"
+    if line.strip() == "":
+        return "white space only"
+    if line.strip() == "---":
+        return "strips to ---"
+    if not line.endswith("\n"):
+        return "no terminator"
+    return "ordinary"
+
+
+def delim_class(d):
+    if not isinstance(d, str) or len(d) != 1:
+        return "not one character"
+    if d == "-":
+        return "dash"
+    if yaml_special(d):
+        return "yaml-special"
+    if d.strip() == "":
+        return "ascii white space" if ord(d) < 128 else "unicode white space"
+    return "other ascii" if ord(d) < 128 else "other unicode"
+
+
+def marker_text_in_numeric_column(s, data):
+    """a cell of the wrong type in a numeric column whose text is the missing marker (it parses as 'missing')"""
+    try:
+        return any(type(d) is not TYPEMAP[f["type"]] and str(d).strip() == s["missing"]
+                   for f, col in zip(s["fields"], data) if f.get("type", "string") in ("integer", "float", "complex") for d in col)
+    except Exception:  # noqa: BLE001
+        return False
+
+
 def classify(s, data, loaded):
     """which hypothesis of C16_roundtrip fails on a case the property statement covers"""
     if len(s["fields"]) == 1 and "---" in out_texts(s, data)[0]:
         return "C16:read_scsv:single-column-yaml-fence"
+    if dash_fence_rows(s["delimiter"], zip(*out_texts(s, data))):
+        return "C16:read_scsv:dash-delimited-empty-row-is-fence"
+    if yaml_special(s["delimiter"]) or yaml_special(s["missing"]):
+        return "C16:write_scsv_header:yaml-special-character"
     if loaded is None:
         return "C16:write_scsv_header:scalar-breaks-yaml"
     fs, fs2 = s["fields"], loaded.get("fields", []) if isinstance(loaded, dict) else []
@@ -743,9 +814,19 @@ FILE_FAULTS = ("file_missing_key", "file_column_renamed", "file_ragged_row", "fi
                "file_no_rows", "file_bad_type", "file_numeric_without_fill", "file_padded_cells", "file_intact")
 
 
+def split_at_second_fence(text):
+    """(text before the closing fence of the header, text after it); the csv body may itself contain '---' at a line end"""
+    ls = text.split("\n")
+    fences = [i for i, ln in enumerate(ls) if ln == "---"]
+    if len(fences) < 2:
+        return tuple(text.rsplit("---\n", 1)) if "---\n" in text else (text, "")
+    i2 = fences[1]
+    return "\n".join(ls[:i2]) + "\n", "\n".join(ls[i2 + 1:])
+
+
 def edit_file(rng, kind, text, s):
     """one edit of a file written by save_scsv (hand-edited files; read_scsv side of the property)"""
-    head, body = text.rsplit("---\n", 1)
+    head, body = split_at_second_fence(text)
     lines = body.split("\n")[:-1]
     d = s["delimiter"]
     if len(lines) < 2:
@@ -776,6 +857,130 @@ TERSE = ["d,m-:colA(s)colB(s:N/A:...)colC()colD(i:999999)colE(f:NaN:%)", "d,m-:a
          "dm-:a()", "d,m-:a", "d,m-:a(s", "d,m-:a(s)b", "d,m-:a(q)", "d,m-:a(s:1:2:3)", "d,m-:(s)()", "d,m-:a(s))",
          "d;mNA:x(f:NaN)y(i:0)", "d\tm:a(b)", "d|m--:z(c:NaN:GPa)y(b:True)", "d,mm:a(s)", "dmm-:a(s)", "d,m-:a(s:)", "d,m-:a(:x)",
          "d,m-a(s)", "d→m∅:ϕ(f:NaN)", "d,m-:a(i)", "d,m-:a(s)b(i:0)c(f)", "d,m-::a(s)", "d,m-:a(s:x:y)(", "d,m-:a()b()c()d()"]
+
+
+# delimiters that are white space for str.strip (a row of empty cells is then a white-space-only line) and
+# that YAML loads back; CSV-legal delimiters YAML does not load back (finding); '-' (four empty cells = '---')
+WS_DELIMS = ["\t", "\t", "\t", "\t", "\xa0", "\u3000", "\u2003", "\u1680", "\u202f", "\u2028"]
+CTRL_DELIMS = ["\x0b", "\x0c", "\x1c", "\x1d", "\x1e", "\x1f", "\x01", "\x7f"]     # (NEL U+0085 is folded to a space by YAML: the rows
+#                are then read with another delimiter and contain NEL, which the model's ASCII strip does not cover - not generated)
+BLANK_VARIANTS = ("fills_empty_marker", "empty_strings", "fence_like", "near_miss", "bool_or_number_keeps_line")
+FILL_FOR = {"string": ["MISSING", "N/A", "x", "n/a"], "integer": ["0", "-1", 7], "float": ["NaN", "nan", "0.0", "inf", 1.5],
+            "complex": ["NaN", "0j", "(1+2j)"]}
+
+
+def typed_fill(t, fill):
+    return TYPEMAP[t](fill)
+
+
+def gen_blank_case(rng, variant, k=None, d=None):
+    """a valid schema / representable columns with rows whose every cell is written as the empty string
+    (or rows that come close): the line of such a row consists of delimiters only"""
+    k = int(k or [1, 2, 2, 3, 4, 4, 5, 8][rng.integers(8)])
+    if d is None:
+        r = rng.random()
+        d = (WS_DELIMS[rng.integers(len(WS_DELIMS))] if r < 0.6 else CTRL_DELIMS[rng.integers(len(CTRL_DELIMS))] if r < 0.68
+             else "-" if r < 0.8 else [",", ";", "|", ":", "e", "0", "→"][rng.integers(7)])
+    names = [str(x) for x in rng.permutation(NAMES_OK)[:k]]
+    n = int(rng.integers(1, 6))
+    blank = sorted(set(int(x) for x in rng.integers(0, n, size=int(rng.integers(1, 3)))))
+    if rng.random() < 0.2:
+        blank = list(range(n))
+    if variant in ("fills_empty_marker", "near_miss", "bool_or_number_keeps_line"):
+        m = "" if variant != "bool_or_number_keeps_line" or rng.random() < 0.5 else "NA"
+        types = [["string", "integer", "float", "complex"][rng.integers(4)] for _ in range(k)]
+    else:
+        while True:
+            m = ["-", "NA", "?", "∅", "nul", "--"][rng.integers(6)]
+            if d not in m:
+                break
+        types = ["string"] * k
+    fields, cols = [], []
+    for name, t in zip(names, types):
+        pool = FILL_FOR[t]
+        f = {"name": name, "type": t, "fill": pool[rng.integers(len(pool))]}
+        if t == "string" and rng.random() < 0.3:
+            del f["type"]
+        fields.append(f)
+        col = []
+        for i in range(n):
+            if i in blank:
+                col.append(typed_fill(t, f["fill"]) if m == "" else ("" if t == "string" else typed_fill(t, f["fill"])))
+            else:
+                x = gen_cell(rng, t, f)
+                if t == "string" and (x == m or d in x and rng.random() < 0.5):
+                    x = "s1"
+                col.append(x)
+        cols.append(col)
+    if variant == "fence_like" and k >= 2:
+        for i in blank:
+            cols[0 if rng.random() < 0.5 else k - 1][i] = "---"
+    if variant == "near_miss":
+        for i in blank:
+            j = int(rng.integers(k))
+            cols[j][i] = {"string": "z", "integer": 12345, "float": 0.25, "complex": 2j}[types[j]]
+    if variant == "bool_or_number_keeps_line":
+        j = int(rng.integers(k))
+        if rng.random() < 0.5:
+            fields[j] = {"name": names[j], "type": "boolean"}
+            cols[j] = [bool(rng.integers(2)) for _ in range(n)]
+        elif m != "":
+            pass            # non-empty marker: the row is written as markers, never blank
+    s = {"delimiter": d, "missing": m, "fields": fields}
+    if rng.random() < 0.5:
+        cols = [tuple(c) for c in cols]        # columns as tuples instead of lists
+    return s, cols, blank
+
+
+FRAME_EDITS = ("intact", "blank_lines", "crlf", "ws_line_in_body", "ws_line_in_header", "fence_trailing_ws", "fence_leading_ws",
+               "no_final_newline", "fence_without_newline_at_eof", "comment_block_in_body", "lone_fence_in_body",
+               "row_strips_to_fence", "text_before_first_fence", "blank_lines_crlf_ws_mix")
+
+
+def edit_frame(rng, kind, text, s):
+    """edits of the line structure of a saved file (blank lines, fences, white space, terminators)"""
+    lines = text.split("\n")[:-1]
+    fences = [i for i, ln in enumerate(lines) if ln == "---"]
+    if len(fences) < 2:
+        return text
+    f1, f2 = fences[0], fences[1]
+    d = s["delimiter"]
+    k = len(s["fields"])
+    wsline = [" ", "\t", "  ", d * (k - 1) if k > 1 else " ", "\x0c", d * k][rng.integers(6)]
+    body_at = int(rng.integers(f2 + 1, len(lines) + 1))
+    tail = "\n"
+    if kind == "blank_lines":
+        for _ in range(int(rng.integers(1, 5))):
+            lines.insert(int(rng.integers(0, len(lines) + 1)), "")
+    elif kind == "crlf":
+        return "\r\n".join(lines) + "\r\n"
+    elif kind == "ws_line_in_body":
+        lines.insert(body_at, wsline)
+    elif kind == "ws_line_in_header":
+        lines.insert(int(rng.integers(f1 + 1, f2 + 1)), ["  ", " ", "      "][rng.integers(3)])
+    elif kind == "fence_trailing_ws":
+        lines[[f1, f2][rng.integers(2)]] = "---" + [" ", "\t", "  "][rng.integers(3)]
+    elif kind == "fence_leading_ws":
+        lines[[f1, f2][rng.integers(2)]] = [" ", "\t"][rng.integers(2)] + "---"
+    elif kind == "no_final_newline":
+        tail = ""
+    elif kind == "fence_without_newline_at_eof":
+        lines = lines[:f2 + 1] if rng.random() < 0.5 else lines + ["---"]
+        tail = ""
+    elif kind == "comment_block_in_body":
+        lines[body_at:body_at] = ["---", "# a second header block", "---"]
+    elif kind == "lone_fence_in_body":
+        lines.insert(body_at, "---")
+    elif kind == "row_strips_to_fence":
+        lines.insert(body_at, ["---" + d * (k - 1), d * (k - 1) + "---", "---" + d, " ---"][rng.integers(4)])
+    elif kind == "text_before_first_fence":
+        lines.insert(0, ["# comment", d.join(f["name"] for f in s["fields"]), " "][rng.integers(3)])
+    elif kind == "blank_lines_crlf_ws_mix":
+        lines.insert(body_at, "")
+        lines.insert(f2 + 1, "")
+        lines.append(wsline)
+        return "\r\n".join(lines) + ("\r\n" if rng.random() < 0.5 else "")
+    return "\n".join(lines) + tail
 
 
 def gen_cases(chk, tier):
@@ -838,6 +1043,43 @@ def gen_cases(chk, tier):
     # (6) terse schemas
     for t in TERSE:
         cases.append({"kind": "terse", "stream": "terse", "text": t})
+    # (7) rows that are written as delimiters only (every cell the empty string) or nearly so, over white-space
+    #     delimiters (ASCII / Unicode), '-', control characters and ordinary ones; each saved file is also read
+    #     through the model of the line loop (kind "file", framed)
+    blank = []
+    for variant in BLANK_VARIANTS:
+        for k in range({"fills_empty_marker": 14, "empty_strings": 10, "fence_like": 6, "near_miss": 5,
+                        "bool_or_number_keeps_line": 5}[variant] * scale):
+            s, data, rows = gen_blank_case(rng, variant)
+            blank.append((variant, s, data))
+    for kk in (2, 4):                      # every white-space delimiter once; '-' with 3, 4, 5 columns
+        for d in sorted(set(WS_DELIMS)):
+            blank.append(("fills_empty_marker",) + gen_blank_case(rng, "fills_empty_marker", k=kk, d=d)[:2])
+    for kk in (3, 4, 5):
+        blank.append(("empty_strings",) + gen_blank_case(rng, "empty_strings", k=kk, d="-")[:2])
+    for variant, s, data in blank:
+        cases.append({"kind": "rt", "stream": "blank-rows", "variant": variant, "schema": s, "data": data})
+    for variant, s, data in blank[::2]:
+        cases.append({"kind": "file", "stream": "frame", "framed": True, "fault": "frame_intact", "schema": s, "data": data,
+                      "r": int(rng.integers(1 << 30))})
+    # (8) the line structure of a saved file, edited
+    for kind in FRAME_EDITS[1:]:
+        for k in range(3 * scale):
+            if rng.random() < 0.5:
+                s, data, _ = gen_blank_case(rng, BLANK_VARIANTS[rng.integers(2)], k=int(rng.integers(1, 4)),
+                                            d=["\t", "\t", "\xa0", ",", ";"][rng.integers(5)])
+            else:
+                s = gen_schema(rng, nfields=int(rng.integers(1, 4)))
+                s["delimiter"] = [",", ";", "|", "\t"][rng.integers(4)]
+                if s["delimiter"] in s["missing"]:
+                    s["missing"] = "-"
+                data = gen_data(rng, s, nrows=int(rng.integers(1, 4)))
+            cases.append({"kind": "file", "stream": "frame", "framed": True, "fault": "frame_" + kind, "schema": s, "data": data,
+                          "r": int(rng.integers(1 << 30)), "comments": ["written by the check", "second: line"] if k == 0 else None})
+    # state between calls: every 8th round trip is run twice
+    for i, c in enumerate(cases):
+        if c["kind"] == "rt" and i % 8 == 0:
+            c["repeat"] = True
     return cases
 
 
@@ -855,20 +1097,35 @@ def prepare(impl, c):
         return "(run_terse %s)" % cs(c["text"])
     s, data = c["schema"], c["data"]
     c["impl_validate"] = impl.validate(s)
-    r, path = impl.roundtrip(s, data)
+    before = (json.dumps(s, sort_keys=True, default=repr), repr(data))
+    r, path = impl.roundtrip(s, data, c.get("comments"))
     c["impl"] = r
     c["text"] = None
+    # the calls leave the caller's schema and columns alone; a second call gives the same result
+    c["inputs_mutated"] = before != (json.dumps(s, sort_keys=True, default=repr), repr(data))
+    c["repeat_differs"] = None
+    if c["kind"] == "rt" and c.get("repeat"):
+        r2, path2 = impl.roundtrip(s, data)
+        c["repeat_differs"] = not (r2[:2] == r[:2] and (r[0] != "OK" or same_cols(r[2], r2[2])))
+        if os.path.exists(path2):
+            os.unlink(path2)
     loaded, rows = None, ("OK", [])
+    lines = yl = cl = None
     if r[0] != "SAVE-ERR":
         if c["kind"] == "file":
             text = open(path).read()
-            text = edit_file(np.random.default_rng(c["r"]), c["fault"], text, s)
-            with open(path, "w") as f:
+            if c.get("framed"):
+                text = edit_frame(np.random.default_rng(c["r"]), c["fault"][len("frame_"):], text, s)
+            else:
+                text = edit_file(np.random.default_rng(c["r"]), c["fault"], text, s)
+            with open(path, "w", newline="" if c.get("framed") else None) as f:
                 f.write(text)
             c["edited_text"] = text
             c["base_ok"] = r[0] == "OK"
             c["impl"] = impl.read(path)
         c["text"] = open(path, newline="").read()
+        with open(path) as f:                       # the io layer: the lines iterating the text-mode file yields
+            lines = list(f)
         yl, cl = impl.split_file(path)
         loaded = impl.load_header(yl)
         d = loaded.get("delimiter") if isinstance(loaded, dict) and isinstance(loaded.get("delimiter"), str) else s.get("delimiter", ",")
@@ -900,8 +1157,17 @@ def prepare(impl, c):
                 T.add_value(x)
     T.close()
     c["strings"] = T.strs
+    # the delimiter itself is never stripped by the code under study (cells cannot contain it unquoted)
+    c["never_stripped"] = {sch["delimiter"] for sch in (s, loaded if isinstance(loaded, dict) else {})
+                           if isinstance(sch.get("delimiter"), str)} - T.values
     y = "YFail" if (loaded is None and r[0] != "SAVE-ERR") else ("(YLoaded %s)" % cschema(loaded if loaded is not None else s))
     tbl = T.emit(rows)
+    if c["kind"] == "file" and c.get("framed"):
+        if lines is None:
+            raise Unmodelled("no file was written")
+        c["lines"] = lines
+        return "(run_file %s %s [(%s, %s)] [(%s, %s)])" % (
+            tbl, clist(lines, cs), clist(yl, cs), y, clist(cl, cs), cres(rows, lambda rr: clist(rr, lambda r_: clist(r_, cs))))
     if c["kind"] == "file":
         return "(run_read %s %s)" % (tbl, y)
     return "(run_rt %s %s %s %s)" % (tbl, cschema(s), y, clist(data, lambda col: clist(col, ccell)))
@@ -971,7 +1237,7 @@ def file_expect_scsv(c):
     if not c.get("base_ok"):
         return False
     if k in ("file_missing_key", "file_column_renamed"):
-        return t != "" and len(t.rsplit("---\n", 1)[1].split("\n")) > 2
+        return t != "" and len(split_at_second_fence(t)[1].split("\n")) > 2
     if k == "file_numeric_without_fill":
         return any(f.get("type") in ("integer", "float", "complex") for f in c["schema"]["fields"])
     if k == "file_bad_type":
@@ -1020,6 +1286,16 @@ def compare(chk, cases, outs):
             count("field_type", f.get("type", "(default)"))
             count("fill", repr(f.get("fill", "(absent)"))[:24])
         count("delimiter", repr(s.get("delimiter", "(absent)")))
+        count("delimiter_class", delim_class(s.get("delimiter")))
+        count("column_container", type(data[0]).__name__ if data else "no columns")
+        if "variant" in c:
+            count("blank_row_variant", c["variant"])
+        if c.get("inputs_mutated"):
+            bad.append((c, "save_scsv / read_scsv modified the caller's schema or columns"))
+        if c.get("repeat_differs") is not None:
+            count("repeated_call_same_result", not c["repeat_differs"])
+            if c["repeat_differs"]:
+                bad.append((c, "a second save_scsv / read_scsv of the same schema and columns gives a different result"))
         count("missing", repr(s.get("missing", "(absent)")))
         if "fault" in c:
             count("fault", c["fault"])
@@ -1027,6 +1303,8 @@ def compare(chk, cases, outs):
         key = (c["kind"], c.get("fault"), json.dumps(s, sort_keys=True, default=str), repr(data))
         # residual check of the text-layer hypotheses used by the model
         for x in c.get("strings", ()):
+            if x in c.get("never_stripped", ()):
+                continue
             if x.strip() != x.strip(WS):
                 bad.append((c, f"residual: str.strip is not ASCII strip on {x!r}"))
         if c["kind"] == "file":
@@ -1035,6 +1313,14 @@ def compare(chk, cases, outs):
             okc = (mr[0] == ir[0] == "ERR" and mr[1] == ir[1]) or \
                   (mr[0] == ir[0] == "OK" and mr[1][0] == ir[1] and same_cols(mr[1][1], ir[2]))
             chk.note_case(key, nontrivial=True, sample=None)
+            if c.get("framed"):
+                count("frame_edit", c["fault"][len("frame_"):])
+                count("frame_split_yaml_csv_lines", m.get("N", "?") if len(c["lines"]) > 40 else "%s of %d lines" % (m.get("N", "?"), len(c["lines"])))
+                for ln in c["lines"]:
+                    count("frame_line_class", line_class(ln))
+                if m.get("F") != "1":
+                    bad.append((c, f"the model's line loop (frame) splits the file differently from the harness' reading of read_scsv: "
+                                   f"model (yaml, csv) line counts {m.get('N')}, file {c['edited_text'][-160:]!r}"))
             if file_expect_scsv(c):
                 count("file_refusal_expected", ir[:2] if ir[0] == "ERR" else "OK")
                 if ir[:2] != ("ERR", "SCSV"):
@@ -1050,6 +1336,7 @@ def compare(chk, cases, outs):
         P, Hf = m["P"] == "1", m["H"] == "1"
         count("model_representable", P)
         count("model_header_faithful", Hf)
+        dash = False         # open finding: the transport hypothesis fails on this case (delimiter '-', four empty cells)
         # save
         if r[0] == "SAVE-ERR":
             if not (ms[0] == "ERR" and ms[1] == r[1]):
@@ -1066,8 +1353,29 @@ def compare(chk, cases, outs):
                 rows = ms[1]
                 transportable = csv_legal(s["delimiter"]) and all(r_ and r_ != ["---"] and all(plain(x) for x in r_) for r_ in rows)
                 count("transport_hypothesis_applies", transportable)
+                # open finding: with the delimiter '-' a transportable row of four empty cells is the line '---'
+                dash = transportable and dash_fence_rows(s["delimiter"], rows)
                 if transportable and c["rows"] != ("OK", rows):
-                    bad.append((c, f"residual: csv transport is not the identity on plain rows: wrote {rows[:3]}, read {c['rows'][1][:3] if c['rows'][0]=='OK' else c['rows']}"))
+                    if dash:
+                        hits.setdefault("C16:read_scsv:dash-delimited-empty-row-is-fence", []).append(
+                            (c, "a row of four empty cells, delimiter '-', is read as the YAML fence"))
+                    else:
+                        bad.append((c, f"residual: csv transport is not the identity on plain rows: wrote {rows[:3]}, read {c['rows'][1][:3] if c['rows'][0]=='OK' else c['rows']}"))
+                # the same hypothesis decomposed as in C16_roundtrip_through_file: header lines and written lines
+                # are neither "\n" nor "---\n"; csv.reader inverts csv.writer on the written rows (no line loop)
+                if len(parts) == 3 and os.linesep == "\n":
+                    hdr_lines, body_lines = parts[1].splitlines(True), [x + "\n" for x in parts[2].split("\n")[:-1]]
+                    for ln in body_lines:
+                        count("written_line_class", line_class(ln))
+                    if transportable:
+                        rw = csv_rows(body_lines, s["delimiter"])
+                        if rw != ("OK", rows):
+                            bad.append((c, f"residual: csv.reader does not invert csv.writer on plain rows: wrote {rows[:3]}, read {rw[1][:3] if rw[0] == 'OK' else rw}"))
+                        lost = [ln for ln in body_lines if ln in ("\n", "---\n")]
+                        if lost and not dash:
+                            bad.append((c, f"residual: a plain row is written as the line {lost[0]!r}, which read_scsv's line loop drops"))
+                        if P and any(ln in ("\n", "---\n") for ln in hdr_lines):
+                            bad.append((c, "residual: a header line of a representable case is blank or a fence"))
                 if transportable and delim_err(s["delimiter"]) is not None:
                     bad.append((c, "residual: csv refuses a CSV-legal delimiter"))
             # read back
@@ -1077,7 +1385,7 @@ def compare(chk, cases, outs):
             if not okc:
                 bad.append((c, f"read_scsv(save_scsv(..)): implementation {r[:3]}, model {m['B'][:160]}"))
         # theorem instance (sanity): hypotheses of C16_roundtrip hold => the model returns the data
-        if P and Hf and mv == ("OK", True):
+        if P and Hf and mv == ("OK", True) and not dash:
             if not (mb[0] == "OK" and same_cols(mb[1][1], [tuple(col) for col in data])):
                 bad.append((c, f"model contradicts C16_roundtrip: {m['B'][:160]}"))
         # the property itself
@@ -1093,16 +1401,20 @@ def compare(chk, cases, outs):
             if fail is not None:
                 k = classify(s, data, c["loaded"])
                 count("finding_class", k)
-                if P and Hf:
+                if P and Hf and not dash:
                     bad.append((c, f"round trip fails although the theorem's hypotheses hold: {fail}"))
                 elif k == "unclassified":
                     unclassified.append((c, fail))
                 else:
                     hits.setdefault(k, []).append((c, fail))
             else:
-                count("roundtrip_verified_cases", "hypotheses hold" if (P and Hf) else "outside hypotheses, still fine")
+                count("roundtrip_verified_cases", "hypotheses hold" if (P and Hf and not dash) else "outside hypotheses, still fine")
         if c.get("fault") in DOCUMENTED_FAULTS and not (r[0] == "SAVE-ERR" and r[1] == "SCSV"):
-            unclassified.append((c, f"documented violation {c['fault']} was not refused with SCSVError: {r[:3]}"))
+            if c["fault"] == "cell_unparsable" and marker_text_in_numeric_column(s, data):
+                count("finding_class", "C16:save_scsv:marker-text-in-numeric-column")
+                hits.setdefault("C16:save_scsv:marker-text-in-numeric-column", []).append((c, f"not refused with SCSVError: {r[:3]}"))
+            else:
+                unclassified.append((c, f"documented violation {c['fault']} was not refused with SCSVError: {r[:3]}"))
         chk.note_case(key, nontrivial=nontrivial or r[0] != "OK",
                       sample={"stream": c["stream"], "fault": c.get("fault"), "schema": s,
                               "data": [[repr(x) for x in col[:4]] for col in data[:8]],
@@ -1194,7 +1506,8 @@ def _run(chk, ok, br, tmp):
     chk.cov["trusted_base"] = [
         common.TRUSTED_COMMON[0],
         "hand-written Model_scsv.v (validate_schema, parse_cell, save, read, parse_terse): tied to the source by this differential run on every generated case (validation result, rows handed to csv.writer byte-wise against the file, returned names and typed values, exception types)",
-        "text layers are oracles, not modelled: csv.writer/csv.reader and the line handling of read_scsv (hypothesis: identity on rows of plain cells for CSV-legal delimiters - checked on every case), str()/int()/float()/complex() (hypothesis t(str(d)) = d instance-wise inside `representable` - evaluated by the model from the real conversions of every string of the case), str.isidentifier, str.strip (checked equal to ASCII strip on every string of the case), collections.namedtuple, PyYAML (the loaded header is passed to the model as data; `header_faithful` is evaluated by the model on it)",
+        "the line loop of read_scsv (blank lines, --- fences) is modelled (Model_scsv_frame.v: frame) and run by the model on the lines of every file of the 'frame' stream; for the other streams the harness' transcription Impl.split_file is used, which the frame stream compares with the model line by line",
+        "text layers are oracles, not modelled: csv.writer/csv.reader (hypotheses: identity on rows of plain cells for CSV-legal delimiters; no written line is blank or a fence; csv.reader inverts csv.writer - checked on every case), text-mode file iteration (universal newlines), str()/int()/float()/complex() (hypothesis t(str(d)) = d instance-wise inside `representable` - evaluated by the model from the real conversions of every string of the case), str.isidentifier, str.strip (checked equal to ASCII strip on every string of the case), collections.namedtuple, PyYAML (the loaded header is passed to the model as data; `header_faithful` is evaluated by the model on it)",
         "float values are named by their Python repr (injective on binary64 up to the sign of zero); Python strings are UTF-8 byte strings in the model; str.lower is ASCII lower in _parse_scsv_bool's model",
         "case files build/cases/C16_*.v are evaluated by coqc with vm_compute; output parsed by harness/props/c16.py",
     ]
@@ -1206,7 +1519,13 @@ def _run(chk, ok, br, tmp):
         "(field count, first field type) pair; (2) the same with cells outside the representable domain (white space, line breaks); "
         "(3) header-hostile scalars (YAML-retyped fills and names, apostrophes) + the fixed witnesses of the open findings; (4) exactly one "
         "fault per case on a valid base: every documented violation kind + 8 undocumented kinds; (5) files written by save_scsv and then "
-        "edited (10 edit kinds) read with read_scsv; (6) terse schema strings. distinct = distinct (kind, fault, schema, data); non-trivial = "
+        "edited (10 edit kinds) read with read_scsv; (6) terse schema strings; (7) rows whose every cell is written as the empty string "
+        "(missing marker '' with all cells equal to the fill; string columns with cells ''), rows that strip to '---', near misses, over "
+        "white-space delimiters (tab, NBSP, U+3000, U+2003, U+1680, U+202F, U+2028), '-', control characters and ordinary delimiters, "
+        "1..8 fields, blank rows first / last / all / consecutive, columns as lists or tuples; (8) files written by save_scsv whose line "
+        "structure is edited (13 kinds: blank lines, CRLF, white-space-only lines, fences with surrounding white space / without "
+        "terminator, extra fences, text before the first fence) read through the model of the line loop; every 8th round trip is run "
+        "twice (same result) and every call is checked to leave the caller's schema and columns unmodified. distinct = distinct (kind, fault, schema, data); non-trivial = "
         "the implementation returned at least one cell or raised")
     cases = gen_cases(chk, chk.tier)
     bad, hits, unclassified = [], {}, []
@@ -1266,12 +1585,17 @@ def _run(chk, ok, br, tmp):
             continue
         try:
             k = classify(c["schema"], c["data"], c.get("loaded")) if c.get("fault") not in DOCUMENTED_FAULTS else "refusal"
+            if c.get("fault") == "cell_unparsable" and marker_text_in_numeric_column(c["schema"], c["data"]):
+                k = "C16:save_scsv:marker-text-in-numeric-column"
         except Exception:  # noqa: BLE001
             k = "unclassified"
         if k in reproducing or (k, fails[0][1][:40]) in seen:
             continue
         seen.add((k, fails[0][1][:40]))
-        found.append((shrink(impl, c), fails))
+        small = shrink(impl, c)
+        if small is not c:
+            fails = oracle(impl, small["schema"], small["data"], small.get("fault")) or fails
+        found.append((small, fails))
         if len(found) >= 3:
             break
     if found:
@@ -1297,6 +1621,14 @@ def shrink(impl, c):
     best = c
     if fault in DOCUMENTED_FAULTS or not data or not isinstance(s.get("fields"), list):
         return best
+    try:                                        # one row, all columns (failures that need the whole line)
+        for i in range(len(data[0]) if len(data[0]) > 1 else 0):
+            d1 = [[col[i]] for col in data]
+            if oracle(impl, s, d1):
+                best = {"schema": s, "data": d1, "fault": None, "kind": "rt"}
+                break
+    except Exception:  # noqa: BLE001
+        pass
     for j in range(len(data)):
         for i in range(len(data[j])):
             s1 = dict(s, fields=[s["fields"][j]])
